@@ -38,6 +38,8 @@ func registerAll() {
 	ev.Register("C10", "plan", checkC10)
 	ev.Register("C11", "load", checkC11)
 	ev.Register("C15", "sandbox", checkC15)
+	ev.Register("C16", "extract", checkC16)
+	ev.Register("C16", "arch", checkC16Arch)
 	ev.Register("C19", "target", checkC19Target)
 	ev.Register("C19", "transplant", checkC19Transplant)
 	ev.Register("C12", "entry", checkC12Entry)
